@@ -24,6 +24,7 @@ def check_anylayout(ctx, rep, tier):
     nvar = len(any_adt['variants'])
     rep.floor('AnyLayout variants', nvar, 10)
     arms = 0
+    noted = set()
     per_wrapper_variants = {}
     for name, ty, path in wrappers:
         by_ref = ty['k'] == 'ref'
@@ -48,9 +49,12 @@ def check_anylayout(ctx, rep, tier):
                     rep.ob('delegation arms', 1, 0)
                     rep.finding(key + ' panics', leaf_where(lf))
                     continue
-                if len(var['fields']) != 1 or var['fields'][0]['ty'].get('k') != 'adt':
-                    rep.ob('delegation arms', 1, 0)
-                    rep.finding(key + ' payload', 'variant does not wrap exactly one layout value')
+                if len(var['fields']) != 1 or var['fields'][0]['ty'].get('k') != 'adt' \
+                        or ('<%s as KeyboardLayout>::map_keycode' % var['fields'][0]['ty']['path']) not in concrete:
+                    # not one of the shipped layouts (an extension variant): outside the property's ten layouts
+                    if (name, vname) not in noted:
+                        noted.add((name, vname))
+                        rep.note('AnyLayout variant %s does not wrap a shipped layout type - not judged' % vname)
                     continue
                 pty = var['fields'][0]['ty']['path']
                 want_callee = '<%s as KeyboardLayout>::map_keycode' % pty
@@ -100,7 +104,10 @@ def check_anylayout(ctx, rep, tier):
                         rep.sample({'wrapper': name, 'variant': vname, 'call': lf.calls[0]['resolved'], 'at': lf.calls[0]['sp'],
                                     'args': [term_str(a[:3]) if a[0] == 'ref' else term_str(a) for a in lf.calls[0]['args']]})
         per_wrapper_variants[name] = seen
-    rep.floor('correct delegation arms', arms, 2 * nvar)
+    judged = [v for v in any_adt['variants'] if len(v['fields']) == 1 and v['fields'][0]['ty'].get('k') == 'adt'
+              and ('<%s as KeyboardLayout>::map_keycode' % v['fields'][0]['ty']['path']) in concrete]
+    rep.floor('AnyLayout variants wrapping shipped layouts', len(judged), 10)
+    rep.floor('correct delegation arms', arms, 2 * len(judged))
     rep.nontrivial = arms
     # every shipped layout is selectable through the wrapper
     wrapped = {v['fields'][0]['ty'].get('path') for v in any_adt['variants'] if v['fields']}
